@@ -26,6 +26,9 @@ pub struct Case {
     /// Only P1 / P4 / P6 apply then (the statement requires distinct keys for the other relations).
     #[serde(default)]
     pub repeat: Option<(u8, u8, String)>,
+    /// the rule also declares a marker, used in its host only (its path and query stay literal)
+    #[serde(default)]
+    pub host_marker: bool,
 }
 
 const PATH_ATOMS: &[&str] = &[
@@ -53,7 +56,8 @@ pub fn url_of(path: &str, params: &[(String, Option<String>)]) -> String {
 const SKIPPED_SET: &AsciiSet = &CONTROLS.add(b' ').add(b'"').add(b'#').add(b'<').add(b'>').add(b'+');
 
 fn matches(router: &redirectionio::router::Router<redirectionio::api::Rule>, uri: &str) -> (bool, Request) {
-    let req = RequestSpec { uri: uri.to_string(), ..Default::default() }.build(&router.config);
+    // (the host only matters to the rules that carry a host marker)
+    let req = RequestSpec { uri: uri.to_string(), host: Some("acme.example.org".to_string()), ..Default::default() }.build(&router.config);
     let m = router.match_request(&req).iter().any(|r| r.id() == "u");
     (m, req)
 }
@@ -131,6 +135,11 @@ pub fn check(case: &Case) -> Outcome {
     rule.source.query = if case.params.is_empty() { None } else { Some(query_of(&case.params)) };
     rule.target = Some("/t".to_string());
     rule.status_code = Some(301);
+    if case.host_marker {
+        rule.source.host = Some("@shop.example.org".to_string());
+        rule.markers = vec![MarkerSpec { name: "shop".to_string(), regex: "[a-z]+".to_string(), transformers: Vec::new() }];
+        out.class("marker-in-host-only");
+    }
     let decoy = RuleSpec::simple("decoy", "/decoy-never-requested");
     let router = build_router(cfg, &[rule, decoy]);
 
@@ -307,8 +316,8 @@ pub fn strategy() -> BoxedStrategy<Case> {
     let params = prop::collection::vec(param, 0..=4);
     let marketing = prop::collection::vec((any::<u8>(), 0usize..7, pick(vec!["x".to_string(), "news letter".to_string(), "a+b".to_string(), "%C3%A9".to_string(), "".to_string()])), 0..=2);
     let repeat = prop::option::weighted(0.12, (any::<u8>(), any::<u8>(), pick(vec!["1".to_string(), "2".to_string(), "".to_string(), "%41".to_string(), "x+y".to_string()])));
-    (config_strategy(), path, params, marketing, prop::collection::vec(any::<u16>(), 4), any::<u16>(), repeat)
-        .prop_map(|(config, path, params, marketing, perm, mutate_at, repeat)| {
+    (config_strategy(), path, params, marketing, prop::collection::vec(any::<u16>(), 4), any::<u16>(), (repeat, prop::bool::weighted(0.25)))
+        .prop_map(|(config, path, params, marketing, perm, mutate_at, (repeat, host_marker))| {
             // keep decoded keys distinct under case folding, non-empty, and outside the marketing set
             let mut seen: Vec<String> = Vec::new();
             let mut ps = Vec::new();
@@ -323,7 +332,7 @@ pub fn strategy() -> BoxedStrategy<Case> {
             }
             let all = ["utm_source", "utm_medium", "utm_campaign", "utm_term", "utm_content", "ref", "gclid"];
             let marketing = marketing.into_iter().map(|(pos, k, v)| (pos, all[k].to_string(), v)).collect();
-            Case { config, path, params: ps, marketing, perm, mutate_at, repeat }
+            Case { config, path, params: ps, marketing, perm, mutate_at, repeat, host_marker }
         })
         .boxed()
 }
